@@ -26,6 +26,8 @@ static void make_path(long idx, JsonPointerView& p) {
     case 9: p /= JsonPointerNodeView(StringView("")); break;
     case 10: p /= JsonPointerNodeView(2); break;
     case 11: p /= JsonPointerNodeView(StringView("b")); break;
+    case 12: p /= JsonPointerNodeView(0); p /= JsonPointerNodeView(1); break;
+    case 13: p /= JsonPointerNodeView(StringView("a")); p /= JsonPointerNodeView(1); break;
   }
 }
 
@@ -97,7 +99,7 @@ extern "C" int h_ondemand(void) {
   if (mode & 2) verif_assume(ref::recognise(in, n) == ref::R_OK);
   int rc = 0;
   long plo = verif_param(1), phi = plo;
-  if (plo < 0) { plo = 0; phi = 11; }            // param1 = -1: all twelve paths, one after the other, on the same text
+  if (plo < 0) { plo = 0; phi = 13; }            // param1 = -1: all fourteen paths, one after the other, on the same text
   Doc full;
   if (mode & 2) {
     full.Parse((const char*)in, n);
